@@ -67,6 +67,25 @@ type e2eCfg struct {
 	startWait time.Duration
 	// C17: a scripted tunnel connector for the client (overrides the one `tunnel` installs); nil = none
 	connector func(port int) net.Conn
+	// C17 (relay): a scripted tunnel connector for the relays (overrides the one `tunnel` installs); nil = none
+	relayConnector func(port int) net.Conn
+	// C17 (relay): called, synchronously, with every chunk the relay chain hands to the client before the
+	// client sees it (blocking in it holds the chunk back); nil = none
+	relayTap func(b []byte)
+}
+
+// e2eTapReader lets the harness see (and hold back) what the client is about to read
+type e2eTapReader struct {
+	r   io.Reader
+	tap func(b []byte)
+}
+
+func (t *e2eTapReader) Read(p []byte) (int, error) {
+	n, err := t.r.Read(p)
+	if n > 0 {
+		t.tap(append([]byte(nil), p[:n]...))
+	}
+	return n, err
 }
 
 type e2eRun struct {
@@ -303,7 +322,13 @@ func runTransfer(cfg e2eCfg, src []string, dest string) e2eResult {
 		if cfg.tunnel {
 			relay.SetTunnelConnector(connector)
 		}
+		if cfg.relayConnector != nil {
+			relay.SetTunnelConnector(cfg.relayConnector)
+		}
 		upIn, upOut = aW, bR
+	}
+	if cfg.relayTap != nil {
+		upOut = &e2eTapReader{upOut, cfg.relayTap}
 	}
 	filter := trzsz.NewTrzszFilter(cliInR, termWriter{r}, upIn, upOut, trzsz.TrzszOptions{TerminalColumns: 100})
 	if cfg.tunnel {
